@@ -69,6 +69,8 @@ def cases(draw):
             kw[k] = float(v)
     if kind == "Rectifier" and "vdrop" not in kw:
         kw["vdrop"] = 0.0
+    if kind == "PMux" and draw(st.integers(0, 9)) == 4:
+        kw["rs"] = []  # an empty list is a list
     if lim is not None:
         lim = floatify(lim)
     spelling = "ig"
